@@ -113,3 +113,45 @@ func Harness_C04_deferFaults() {
 	}
 	zzsym.Reach("c04.defer.compared")
 }
+
+func Setup_C04_interceptor() { Setup_C01_exec() }
+
+// operation families without aliases on object-valued fields (the world names positions by field names)
+var c04InterceptFamilies = []int{0, 4, 5, 12, 13}
+
+// Harness_C04_interceptor: the field interceptor (around every field, plain
+// ones included) fails at one position - answers nil, returns an error or
+// panics: only that position is null (with ordinary propagation), one error at
+// its path, recover hook once per panic.
+func Harness_C04_interceptor() {
+	fi := c04InterceptFamilies[zzsym.Choice("family", len(c04InterceptFamilies))]
+	fam := c01Families[fi]
+	vars := map[string]any{}
+	for _, v := range fam.flags {
+		vars[v] = true
+	}
+	w := newWorld(1, true)
+	w.intercept = true
+	w.onlyIntercept = true
+	doc := c01Docs[fi]
+	op := doc.Operations[0]
+	got := runOp(w, doc, op, vars)
+	want := ref.Execute(pSchema, doc, op, vars, w)
+	zzsym.Event("data", got.data)
+	zzsym.Event("errors", strings.Join(got.errs, " "))
+	zzsym.Event("want", want.Data+" "+strings.Join(want.Errors, " "))
+	zzsym.Assert(got.data == want.Data, "only the position whose interceptor failed (and its non-null ancestors) is null")
+	zzsym.Assert(sameErrors(got.errs, want.Errors), "exactly one error per failure, at the failing path")
+	zzsym.Assert(w.recovers == w.raised, "the recover hook runs exactly once per panic")
+	if w.raised > 0 {
+		zzsym.Reach("c04.interceptor.panic")
+	}
+	zzsym.Reach("c04.interceptor")
+}
+
+func Setup_C04_subscription() { probeSetup() }
+
+// Harness_C04_subscription: a fault (error / panic) while subscribing or while
+// resolving a field of one event: only that position of that event fails, the
+// stream goes on, recover hook once per panic.
+func Harness_C04_subscription() { subscriptionRun(true, 1) }
